@@ -132,7 +132,7 @@ pub fn check(case: &LedgerCase, obs: &mut Obs) -> Verdict {
 pub fn def() -> PropDef {
     let mut d = PropDef::new("C03", "histories of non-registered affiliates without manual superficial-loss entries (ledger generator and window scenarios, biased to several buying affiliates and to sales inside windows). After every transaction (with its automatic adjustments) the identity  sum(gains) = sum(net proceeds) - sum(purchase costs incl. opening ACB) + sum(RoC) + sum(ACB held)  is evaluated in exact arithmetic from the INPUT rows' cash flows and the tool's rows, up to the first sale flagged potentially over-applied; for every sale the adjustments sum to at most the denied amount, go only to non-registered affiliates that acquired within 30 days, and are pro rata to end-of-window holdings (reference model). Non-trivial = a superficial sale with >= 2 recipient affiliates, or a partial (ratio < 1) denial. Distinct = distinct case content.");
     d.assumptions = vec!["tolerance 1e-9 on the identity (the tool snaps sub-1e-10 amounts)", "RoC cash is per-share amount x the tool's own share balance before the row"];
-    d.subs.push(Box::new(Sub::<LedgerCase> { name: "identity", cases_quick: 25_000, cases_thorough: 1_000_000, strategy: Box::new(identity_strategy), to_json: LedgerCase::to_json, from_json: LedgerCase::from_json, check }));
-    d.subs.push(Box::new(Sub::<LedgerCase> { name: "windows", cases_quick: 25_000, cases_thorough: 1_000_000, strategy: Box::new(window_strategy), to_json: LedgerCase::to_json, from_json: LedgerCase::from_json, check }));
+    d.subs.push(Box::new(Sub::<LedgerCase> { name: "identity", cases_quick: 40_000, cases_thorough: 1_000_000, strategy: Box::new(identity_strategy), to_json: LedgerCase::to_json, from_json: LedgerCase::from_json, check }));
+    d.subs.push(Box::new(Sub::<LedgerCase> { name: "windows", cases_quick: 40_000, cases_thorough: 1_000_000, strategy: Box::new(window_strategy), to_json: LedgerCase::to_json, from_json: LedgerCase::from_json, check }));
     d
 }
